@@ -60,6 +60,19 @@ theorem structural_document_roundtrip (evs : List Ev) (h : evs.all simple = true
     ∃ back, decode (encode doc).1 = (back, none) ∧ canon false back = canon false doc :=
   document_roundtrip evs h
 
+/-- no two structural documents with different data share an encoding: the bytes determine the data -/
+theorem structural_encoding_determines_data (a b : List Ev) (ha : a.all simple = true) (hb : b.all simple = true)
+    (h : (encode (Ev.beginDoc :: Ev.version 0 :: (a ++ [Ev.endDoc]))).1 =
+         (encode (Ev.beginDoc :: Ev.version 0 :: (b ++ [Ev.endDoc]))).1) :
+    canon false (Ev.beginDoc :: Ev.version 0 :: (a ++ [Ev.endDoc])) =
+    canon false (Ev.beginDoc :: Ev.version 0 :: (b ++ [Ev.endDoc])) := by
+  obtain ⟨_, ba, hda, hca⟩ := document_roundtrip a ha
+  obtain ⟨_, bb, hdb, hcb⟩ := document_roundtrip b hb
+  rw [h] at hda
+  rw [hda] at hdb
+  have : ba = bb := by injection hdb
+  rw [← hca, ← hcb, this]
+
 /-- non-vacuity: a nested document with a marker, a reference, a record, integers of several
     widths and signs, a comment and padding satisfies the hypothesis -/
 example : ([Ev.map, .marker [97], .list, .int (-5), .stringlike .string [104, 105], .stringlike .rid (List.replicate 40 120), .array .u16 2 [1, 0, 2, 0], .array .f64 2 (List.replicate 16 0),
